@@ -157,6 +157,15 @@ def replay(rec: Dict[str, Any]) -> List[Tuple[str, Dict[str, Any], str]]:
     res = []
     txt = untext(rec["text"])
     toks = [untext(t) for t in rec["toks"]]
+    if "\\" in txt:
+        # history: the same text built first with escape decoding on (outcome not judged here, C03's business);
+        # what the text means with decoding off must not depend on that having happened
+        try:
+            from jsonpath import JSONPointer
+
+            JSONPointer(txt).exists(untag(rec["doc"]))
+        except Exception:  # noqa: BLE001
+            pass
     for ue in ((True, False) if "\\" not in txt else (False,)):
         obs = observe(rec, ue)
         if obs:
